@@ -75,6 +75,36 @@ VALUES = st.one_of(st.none(), st.integers(-3, 3), st.booleans(), st.just(0.0), s
 ERRORS = st.one_of(st.none(), st.just(""), st.text(max_size=5), st.just("Unknown Error"))
 
 
+def check_empty_call(op, micro):
+    """n = 0: a call without requests answers with an empty list (not with an exception, not with a Tag)"""
+    from pycomm3.exceptions import PycommError
+    from .. import harness
+    from ..refplc import RefPLC
+    pd = {"udts": [], "programs": [], "extras": [], "tags": [{"name": "A", "scope": None, "type": "DINT", "dims": [], "instance": 3, "access": 0, "alias": False}]}
+    cfg = {"fo_policy": "std"}
+    if micro:
+        cfg["identity"] = {"major": 12, "minor": 0, "product_name": "2080-LC50-48QWB", "serial": 1}
+    tgt = RefPLC(pd, {"/A": bytes(4)}, cfg)
+    try:
+        plc = harness.open_logix(tgt, "192.168.1.10")
+        try:
+            got = plc.read() if op == "read" else plc.write()
+        except Exception as e:
+            if S.where(e) == "harness":
+                raise
+            return [Disc(f"empty-call.{op}.raises.{type(e).__name__}", f"{op}() without requests raised {e!r}")]
+        finally:
+            try:
+                plc.close()
+            except PycommError:
+                pass
+        if got != []:
+            return [Disc(f"empty-call.{op}.result", f"{op}() without requests returned {got!r}, expected []")]
+    finally:
+        harness.uninstall()
+    return []
+
+
 def plan(tier):
     n = 8 if tier == "quick" else 32
     per = 190 if tier == "quick" else 2400
@@ -85,6 +115,7 @@ def plan(tier):
     for i in range(4 if tier == "quick" else 16):
         jobs.append({"part": ["read", "write"][i % 2], "fragfail": True, "examples": 100 if tier == "quick" else 1200})
     jobs.append({"part": "tag", "examples": 2000 if tier == "quick" else 50000})
+    jobs.append({"part": "empty"})
     for _ in range(4 if tier == "quick" else 16):
         jobs.append({"part": "wrap", "examples": 40 if tier == "quick" else 400})
     return jobs
@@ -102,6 +133,13 @@ def run_job(ctx, job):
 
         hyp_search(ctx, "wrap", c17.histories(), check_wrap, job["examples"], sample_of=c17.sample_of)
         return
+    if job["part"] == "empty":
+        for op in ("read", "write"):
+            for micro in (False, True):
+                ctx.case(("empty-call", op, micro), True, ["empty-call"])
+                for d in check_empty_call(op, micro):
+                    ctx.violation(d, "empty", {"op": op, "micro": micro})
+        return
     if job["part"] == "tag":
         hyp_search(ctx, "tag", st.tuples(st.text(max_size=4), VALUES, st.one_of(st.none(), st.text(max_size=4)), ERRORS),
                    lambda f: (check_tag(f), True, ["truthiness"]), job["examples"])
@@ -112,6 +150,8 @@ def run_job(ctx, job):
 def replay(ctx, kind, case):
     if kind == "tag":
         return check_tag(case)
+    if kind == "empty":
+        return check_empty_call(case["op"], case["micro"])
     if kind == "wrap":
         from . import c17
         return [d for d in c17.check_history(case, strict=True)[0] if d.bucket.startswith("strict.")]
